@@ -3,8 +3,10 @@ Disjoint from every live block of any allocator, only live blocks are freed, Cle
 heap's blocks).  The real fixed-size heaps (8/24/100 bytes), the power-of-two block heap, the
 variable-size bump heap (both allocate forms), the per-iteration bump+malloc heap, the page pool
 (2 MB pages), per-thread storage objects and large arrays are driven by sequential histories over
-boundary sizes (incl. the very first operation on a fresh heap) and by concurrent mixes from 1-8
-threads with blocks handed to other threads for freeing; canaries in live blocks are re-checked.
+boundary sizes (incl. the very first operation on a fresh heap, fixed sizes that are not multiples of 8,
+per-thread storage served from split free offsets after its page is exhausted), by concurrent mixes from 1-8
+threads with blocks handed to other threads for freeing, and the page pool also under controlled schedules;
+canaries in live blocks are re-checked.
 TLC replays every history on AllocAbs."""
 import os, json, concurrent.futures as cf
 from vlib.common import *
@@ -13,24 +15,29 @@ from vlib import tv, conc
 LEVEL = "model_checking"
 SP = os.path.join(SPECS, "mem")
 HEAPS = {0: "FixedSizeHeap(24)", 1: "FixedSizeHeap(8)", 2: "FixedSizeHeap(100)", 3: "Pow_2_BlockHeap", 4: "VariableSizeHeap(bump)",
-         5: "BumpWithMallocHeap(per-iteration)", 6: "PagePool", 7: "PerThreadStorage", 8: "LargeArray"}
+         5: "BumpWithMallocHeap(per-iteration)", 6: "PagePool", 7: "PerThreadStorage", 8: "LargeArray",
+         9: "FixedSizeHeap(12)", 10: "FixedSizeHeap(20)", 11: "FixedSizeHeap(9)"}
 
 
 def run(ev, vd):
-    make(fbin("alloc"))
-    jobs = [("seq", 0), ("seq", 1), ("free", 2), ("free", 3)]
+    make(fbin("alloc"), cbin("alloc"))
+    # pts: per-thread storage with an exhausted page (own process: the page stays exhausted); ctlpage: the page pool under
+    # controlled schedules (flavour C)
+    jobs = [("seq", 0), ("seq", 1), ("free", 2), ("free", 3), ("pts", 4), ("pts", 5), ("ctlpage", 6), ("ctlpage", 7)]
 
     def job(j):
         mode, k = j
         out = os.path.join(BUILD, "tmp", "alloc_%d.ndjson" % k)
-        rc, o, dt = conc.run_harness(fbin("alloc"), [out, ev.seed * 100 + k, tier(), mode], timeout=600)
+        rc, o, dt = conc.run_harness(cbin("alloc") if mode == "ctlpage" else fbin("alloc"), [out, ev.seed * 100 + k, tier(), mode], timeout=1200)
         return j, out, rc, o
-    with cf.ThreadPoolExecutor(max_workers=4) as ex:
+    with cf.ThreadPoolExecutor(max_workers=8) as ex:
         results = list(ex.map(job, jobs))
     paths = []
     for (mode, k), out, rc, o in results:
         if rc == 124:
             vd.violation(dict(component="alloc", op="hang"), "allocator harness (%s) did not finish" % mode, dict(mode=mode))
+        elif rc in (43, 44, 45):
+            vd.violation(dict(component="alloc", op="hang"), "allocator harness (%s) deadlocked under a controlled schedule: %s" % (mode, o[-300:]), dict(mode=mode))
         elif rc not in (0, 3):
             raise ToolError("alloc harness failed rc=%s (%s):\n%s" % (rc, mode, o[-1500:]))
         paths.append(out)
